@@ -217,10 +217,13 @@ Definition auth_verify (c : cfg) (s : option dsig) : result bool :=
     end
   else Ok (base_verify c s).
 
-(* VerifyQuorumCert *)
+(* VerifyQuorumCert.  The genesis QC is valid for view 0 and without a signature only
+   (qc.HasSignature(): a nil interface is no signature; whatever QuorumSignatureFromProto restores is one). *)
 Definition verify_qc (c : cfg) (q : dqc) : result bool :=
   match dq_hash q with
-  | HGenesis => Ok true
+  | HGenesis =>
+      if dq_view q =? 0 then match dq_sig q with None => Ok true | Some _ => Ok false end
+      else Ok false
   | h =>
       match dq_sig q with
       | None => Ok false
@@ -529,9 +532,13 @@ Definition sig_bad (s : option wsig) : bool :=
   | Some (Some (WBls r _ ok)) => negb (r && ok)      (* bytes that do not restore verify nothing *)
   | _ => true
   end.
-(* the genesis QC and the view-0 TC are valid certificates without signatures *)
+(* the genesis QC (view 0, nothing that restores to a signature) and the view-0 TC are valid certificates
+   without signatures *)
 Definition qc_bad (q : wqc) : bool :=
-  match q_hash q with HGenesis => false | _ => sig_bad (q_sig q) end.
+  match q_hash q with
+  | HGenesis => negb ((q_view q =? 0) && match sig_from_proto (q_sig q) with None => true | Some _ => false end)
+  | _ => sig_bad (q_sig q)
+  end.
 Definition tc_bad (t : wtc) : bool := negb (t_view t =? 0) && sig_bad (t_sig t).
 Definition agg_bad (a : wagg) : bool := sig_bad (a_sig a).
 Definition oqc_bad (q : option wqc) := match q with None => true | Some q => qc_bad q end.
